@@ -8,7 +8,7 @@
     ([all_fixed]: the tree the check runs against; [pinned]: the tree as found).
     Spec (Val/CoerceSpec.v): [conforms], [ref_coerce] (RefCoerce), [ref_request]. *)
 From Coq Require Import List NArith ZArith Bool.
-From ApiFu Require Import Base.Sexp Val.Values Val.CoerceModel Val.CoerceSpec Val.CoerceProofs Val.FloatExact Val.CoerceReasons Val.CoerceRefine Val.CoerceRoutes Val.CoerceSameValue Val.CoerceTotal Val.CoerceComplete Val.BridgeC04 Val.BridgeC04Proofs Val.BridgeC04Doc Val.BridgeC04Full Val.FloatRange Val.FloatText.
+From ApiFu Require Import Base.Sexp Val.Values Val.CoerceModel Val.CoerceSpec Val.CoerceProofs Val.FloatExact Val.CoerceReasons Val.CoerceRefine Val.CoerceRoutes Val.CoerceSameValue Val.CoerceTotal Val.CoerceComplete Val.BridgeC04 Val.BridgeC04Proofs Val.BridgeC04Doc Val.BridgeC04Full Val.FloatRange Val.FloatText Val.Rfc3339 Val.Rfc3339Facts.
 From ApiFu Require Vld.Ast Vld.ValidatorModel Vld.Inspect Vld.TypeInfoModel Vld.ProofsValues Vld.ProofsTypeInfoValues.
 Import ListNotations.
 
@@ -456,6 +456,20 @@ Theorem C05_C04_accepts_implies_static_ok_r : forall E dt sf dname argdefs defs 
   static_ok all_fixed E dt sf argdefs defs args = true.
 Proof. exact accepts_implies_static_ok_final. Qed.
 
+(** ** DateTime: the verdict of time.Time.UnmarshalText is inside the model (final round).
+    [rfc3339_go] (Val/Rfc3339.v) transcribes what apifu.DateTimeType accepts: time.Parse with the
+    RFC3339 layout as go 1.23 runs it behind UnmarshalText (strict re-check switched off).  The check
+    compares it with the standard library's own verdict on every string of every case.  A string it
+    accepts names a real calendar date (digits, month 1..12, day within the month, leap years): *)
+Theorem C05_datetime_accepted_is_calendar_date : forall s, rfc3339_go s = true ->
+  exists y1 y2 y3 y4 m1 m2 d1 d2 r,
+    s = (y1 :: y2 :: y3 :: y4 :: 45 :: m1 :: m2 :: 45 :: d1 :: d2 :: 84 :: r)%N /\
+    isd y1 && isd y2 && isd y3 && isd y4 && isd m1 && isd m2 && isd d1 && isd d2 = true /\
+    (1 <= num2 m1 m2 <= 12)%N /\
+    (1 <= num2 d1 d2 <= days_in (num2 m1 m2) (1000 * dv y1 + 100 * dv y2 + 10 * dv y3 + dv y4))%N /\
+    time_ok r = true.
+Proof. exact accepted_is_calendar_date. Qed.
+
 (** the repaired defects: the same statements are false of the code as found *)
 Theorem C05_args_conform_refuted_before_fix :
   exists argdefs defs args raw m,
@@ -519,6 +533,7 @@ Print Assumptions C05_C04_float_leaves_agree.
 Print Assumptions C05_C04_coercion_bridge_r.
 Print Assumptions C05_C04_coercion_bridge.
 Print Assumptions C05_C04_accepts_implies_static_ok_r.
+Print Assumptions C05_datetime_accepted_is_calendar_date.
 Print Assumptions C05_C04_longint_leaf.
 Print Assumptions C05_C04_datetime_leaf.
 Print Assumptions C05_C04_accepts_implies_static_ok_bridgeable.
